@@ -114,6 +114,25 @@ def directed() -> List[Dict[str, Any]]:
                              "reserved": [3001, "3002-3004"]},
                   "b.yaml": {"messages": [["MB", 3050, None]], "reserved": [3051, 3052]},
                   "c.yaml": {"reserved": ["3060 to 3062"]}}, tags=["reserved_multi"]))
+    # `validate_msg_id`: message / signal / reserved ids may not repeat anywhere in the closure, in either order, and
+    # must lie in [0, MAX_MESSAGE_TYPES]
+    D.append(one({"a.yaml": {"imports": ["b.yaml"], "messages": [["MA", 7300, [F("v", "int32")]]], "reserved": ["7326 to 7328"]},
+                  "b.yaml": {"messages": [["MB", 7328, [F("v", "double")]]]}}, tags=["id_conflict", "id_then_range_other_file"]))
+    D.append(one({"a.yaml": {"imports": ["b.yaml"], "messages": [["MA", 7327, [F("v", "int32")]]]},
+                  "b.yaml": {"messages": [["MB", 7300, None]], "reserved": ["7326 to 7328"]}},
+                 tags=["id_conflict", "range_then_id_other_file"]))
+    D.append(one({"a.yaml": {"messages": [["MA", 7401, [F("v", "int32")]]], "reserved": [7400, "7401-7403"]}},
+                 tags=["id_conflict", "id_then_range_same_file"]))
+    D.append(one({"a.yaml": {"imports": ["b.yaml"], "messages": [["MA", 7500, [F("v", "int32")]]]},
+                  "b.yaml": {"messages": [["MB", 7500, None]]}}, tags=["id_conflict", "signal_then_message"]))
+    D.append(one({"a.yaml": {"imports": ["b.yaml", "c.yaml"], "messages": [["MA", 7600, None]]},
+                  "b.yaml": {"reserved": ["7610-7615"]}, "c.yaml": {"reserved": [7620, "7615 to 7617"]}},
+                 tags=["id_conflict", "range_overlaps_range"]))
+    D.append(one({"a.yaml": {"messages": [["MA", 10000, [F("v", "int32")]], ["MZ", 0, None]]}}, tags=["id_bounds_ok"]))
+    D.append(one({"a.yaml": {"messages": [["MA", 10001, [F("v", "int32")]]]}}, tags=["id_conflict", "id_above_max"]))
+    D.append(one({"a.yaml": {"messages": [["MA", -1, None]]}}, tags=["id_conflict", "id_negative"]))
+    D.append(one({"a.yaml": {"imports": ["b.yaml"], "messages": [["MA", 7700, [F("v", "int32")]]], "reserved": ["7701 to 7703"]},
+                  "b.yaml": {"messages": [["MB", 7704, [F("v", "double")]]], "reserved": [7705]}}, tags=["reserved_adjacent_ok"]))
     # import diamond, every section in every file
     D.append(one({"a.yaml": {"imports": ["b.yaml", "c.yaml"], "constants": [["NA", "ND + 1", 5]],
                              "messages": [["MA", 2000, [F("b", "SB"), F("c", "SC_"), F("arr", "uint16", "NA", 5)]]]},
